@@ -173,13 +173,12 @@ func directC18(g *G, rep *Report) {
 	eg := &exprGen{r: g.R.Fork(), funcs: true, redundantParens: 10, illTyped: 10}
 	for i := 0; i < n; i++ {
 		src := eg.expr(2, tAny) + " " + eg.expr(1, tAny)
-		func() {
-			defer func() { recover() }()
+		guarded(5*time.Second, func() {
 			parse.Expr(src)
 			if i%7 == 0 {
 				parse.SoyFile("f", "{namespace a}\n{template .t}\n{"+src+"\n{/template}")
 			}
-		}()
+		})
 	}
 	time.Sleep(100 * time.Millisecond)
 	grown := runtime.NumGoroutine() - base
